@@ -26,6 +26,8 @@ def levels(tier):
             {"name": "str-prefixes", "n": 1, "concrete": STR_POOL, "as_str": True, "str_prefixes": True,
              "prelude": [["page", 0, False], ["links", [[1, 2], [3, 2], [3, 1], [2, 0]]], ["we", [[0, 3]]]],
              "alphabet": ["links", "page"], "links_batch": 1, "defaults": ["never"], "ks": [1, 2, 3], "depths": [None, 1]},
+            {"name": "requery", "n": 1, "prelude": TPL, "alphabet": ["we", "addprefix", "delwe", "moveprefix"], "defaults": ["never"],
+             "ks": [1, 2], "depths": [None, 1], "requery": True},
             {"name": "nested-prefixes", "n": 1, "prelude": [["page", 0, False], ["links", [[3, 2], [0, 2], [3, 1], [2, 0]]], ["we", [[0, 3], [1, 4]]]],
              "alphabet": ["links", "page"], "links_batch": 1, "defaults": ["never"], "ks": [1, 2, 3], "depths": [None, 1]},
         ]
@@ -39,8 +41,14 @@ def levels(tier):
     ]
 
 
-def battery(E, t, h, P):
+def battery(E, t, h, P, sel=None):
     ref = h.ref
+    sel = {} if sel is None else sel
+
+    def pick(name, n):
+        if name not in sel:
+            sel[name] = E.choose(name, n)
+        return sel[name] % n
     pages, own = owners(ref)
     # true indegree = number of distinct sources (self included)
     indeg = []
@@ -59,9 +67,9 @@ def battery(E, t, h, P):
     alive = h.alive()
     if not alive:
         return
-    weid, prefix_lrus = alive[E.choose("we", len(alive))]
-    k = P["ks"][E.choose("k", len(P["ks"]))]
-    depth = P["depths"][E.choose("depth", len(P["depths"]))]
+    weid, prefix_lrus = alive[pick("we", len(alive))]
+    k = P["ks"][pick("k", len(P["ks"]))]
+    depth = P["depths"][pick("depth", len(P["depths"]))]
     # candidates: pages of W within the depth limit below one of the prefixes given
     cand = []
     for i, pl in enumerate(pages):
@@ -116,5 +124,11 @@ def battery(E, t, h, P):
 
 
 def harness(E):
-    t, h, pool = build(E, E.params)
-    battery(E, t, h, E.params)
+    P = E.params
+    sel = {}
+    if P.get("requery"):
+        # ask, change the webentities (no page or link write), ask again with the same parameters
+        t, h, pool = build(E, P, after_step=lambda t_, h_: battery(E, t_, h_, P, sel))
+    else:
+        t, h, pool = build(E, P)
+    battery(E, t, h, P, sel)
